@@ -94,7 +94,12 @@ use std::error::Error;
 use std::fmt;
 use std::future::Future;
 use std::pin::Pin;
+#[cfg(not(nexosim_verif))]
 use std::sync::{Arc, Mutex, MutexGuard};
+#[cfg(nexosim_verif)]
+use crate::verif::sync::{Arc, Mutex, MutexGuard};
+#[cfg(nexosim_verif_shuttle)]
+use crate::verif::LocalKeyCellExt as _;
 use std::task::Poll;
 use std::time::Duration;
 use std::{panic, task};
@@ -112,7 +117,10 @@ use crate::time::{AtomicTime, Clock, Deadline, MonotonicTime, SyncStatus};
 use crate::util::seq_futures::SeqFuture;
 use crate::util::slot;
 
+#[cfg(not(nexosim_verif))]
 thread_local! { pub(crate) static CURRENT_MODEL_ID: Cell<ModelId> = const { Cell::new(ModelId::none()) }; }
+#[cfg(nexosim_verif)]
+crate::verif::thread_local! { pub(crate) static CURRENT_MODEL_ID: Cell<ModelId> = const { Cell::new(ModelId::none()) }; }
 
 /// Simulation environment.
 ///
@@ -407,6 +415,8 @@ impl Simulation {
                             break Some(key);
                         }
                         // Discard cancelled actions.
+                        #[cfg(nexosim_verif)]
+                        crate::verif::probe(crate::verif::Probe::CancelledDiscarded);
                         scheduler_queue.pull();
                     }
                     _ => break None,
@@ -433,6 +443,8 @@ impl Simulation {
                 // To ensure that their relative order of execution is
                 // preserved, all actions with the same origin are executed
                 // sequentially within a single compound future.
+                #[cfg(nexosim_verif)]
+                crate::verif::probe(crate::verif::Probe::SeqActions);
                 let mut action_sequence = SeqFuture::new();
                 action_sequence.push(action.into_future());
                 loop {
